@@ -41,7 +41,7 @@ theorem C16_gen_timeout_tests (nodeOn running : Bool) (last tmo t : Nat) :
   unfold Gen.SessionTr.preTimestepLocalTest Gen.SessionTr.preTimestepRemoteTest
   constructor <;> rw [Bool.eq_iff_iff] <;> cases nodeOn <;> cases running <;> simp <;> omega
 
-theorem preTimestep_aux (nodeOn running : Bool) (n : Net) (y : Nat) (loc : Option LSession) (rem : List RSession) (lt rt t : Nat) :
+theorem C16_gen_pre_timestep_fold (nodeOn running : Bool) (n : Net) (y : Nat) (loc : Option LSession) (rem : List RSession) (lt rt t : Nat) :
     (Gen.SessionTr.preTimestepInactive nodeOn running (fun l : LSession => l.last) (fun s : RSession => s.last) lt rt t loc rem).foldl
         (timeoutDispatch y) n =
       (rem.filter (fun s => decide (s.last + rt ≤ t))).foldl (fun m s => timeoutRemote m y s)
@@ -63,7 +63,7 @@ theorem C16_gen_pre_timestep (nodeOn running : Bool) (n : Net) (y : Nat) :
   | none => rfl
   | some nd =>
     simp only []
-    rw [preTimestep_aux]
+    rw [C16_gen_pre_timestep_fold]
     rfl
 
 theorem C16_gen_pre_timestep_notes : Gen.SessionTr.preTimestepNotes = ["sets-current"] := by decide
@@ -143,6 +143,16 @@ theorem C16_gen_login_guards :
       cases nd.isOn <;> cases nd.usm.running <;> cases nd.authenticate u p <;> simp [h, h']
     · have h' : nd.rem.length ≥ nd.maxRemote := by omega
       cases nd.isOn <;> cases nd.usm.running <;> cases nd.authenticate u p <;> simp [h, h']
+
+/-- **Gen, semantic.** `Terminal.login` (the Python API that hands out connection objects): refused unless the terminal is RUNNING,
+otherwise a remote login request when an address is given, a local login when not; `_process_local_login` hands out a connection
+exactly when `UserSessionManager.local_login` returned a session id (= `Node.loginOk`, by `C16_gen_login_guards`) — the model's
+`opLocalCmdK` / `opRemoteLogin` behind the terminal's own RUNNING test. -/
+theorem C16_gen_terminal_login (nodeOn running hasIp granted : Bool) :
+    Gen.SessionTr.terminalLogin nodeOn running hasIp = (if !running then 0 else if hasIp then 1 else 2) ∧
+    Gen.SessionTr.processLocalLogin granted = granted := by
+  unfold Gen.SessionTr.terminalLogin Gen.SessionTr.processLocalLogin
+  cases nodeOn <;> cases running <;> cases hasIp <;> cases granted <;> decide
 
 /-! ### `disable_user` -/
 
